@@ -8,6 +8,7 @@ open PedVerif.Switch
 #print axioms claim_sound
 #print axioms rows_honour
 #print axioms rows_cover
+#print axioms switch_read_only_at_decoration
 #print axioms disabled_is_identity
 #print axioms enabled_checks
 #print axioms enabled_opaque_unspecified
@@ -16,6 +17,7 @@ open PedVerif.Switch
 #print axioms closedMode_live
 #print axioms read_at_decoration
 #print axioms read_at_application
+#print axioms generic_instance_check_read_at_decoration
 #print axioms redecorate_disabled_is_identity
 #print axioms read_at_redecoration
 #print axioms first_result_unaffected_by_redecoration
